@@ -96,7 +96,9 @@ func (key watermarkTriggerKey) Less(than btree.Item) bool {
 		panic(fmt.Sprintf("invalid key comparison: %T", than))
 	}
 
-	if key.Time == thanTyped.Time {
+	// Time values have to be compared as instants: == also compares the location pointers,
+	// which differ for equal instants parsed from different time zones (or even the same one).
+	if key.Time.Equal(thanTyped.Time) {
 		return key.GroupKey.Less(thanTyped.GroupKey)
 	} else {
 		return key.Time.Before(thanTyped.Time)
